@@ -75,6 +75,10 @@ def _impl_one(op):
     if kind == "DEC":
         _, mode, tname, cc, enc, data = op
         return canon.impl_dec(mode, tname, cc, enc, data)
+    if kind == "INT":
+        return canon.impl_int(op[1], op[2])
+    if kind == "BITS":
+        return canon.impl_bits(op[1], op[2])
     raise ValueError(kind)
 
 
@@ -89,6 +93,8 @@ def op_line(op):
     if op[0] == "DEC":
         _, mode, tname, cc, enc, data = op
         return canon.dec_op(mode, tname, cc, enc, data)
+    if op[0] in ("INT", "BITS", "INTP"):
+        return f"{op[0]} {op[1]} {op[2]}"
     raise ValueError(op[0])
 
 
